@@ -191,8 +191,21 @@ inductive San
 
 def uriPrefix : String := "spiffe://"
 
-/-- the documented rule: an IP literal is an IP SAN, a `spiffe://` string a URI SAN, the rest DNS -/
+def lowerAscii (c : Char) : Char := if 'A' ≤ c ∧ c ≤ 'Z' then Char.ofNat (c.toNat + 32) else c
+
+/-- `hasSpiffeScheme` (san.go, since fix 197ddc2): the first nine bytes equal "spiffe://" without
+    regard to (ASCII) case - `strings.EqualFold` on a nine-byte slice can only match ASCII. -/
+def hasSpiffeScheme (host : String) : Bool := (host.toList.take 9).map lowerAscii == uriPrefix.toList
+
+/-- the documented rule: an IP literal is an IP SAN, a string with the (case-insensitive) `spiffe://`
+    scheme a URI SAN, the rest DNS -/
 def classify (host : String) : San :=
+  match parseAddr host.toList with
+  | some b => .ip b
+  | none => if hasSpiffeScheme host then .uri host else .dns host
+
+/-- the rule before fix 197ddc2: the scheme was compared case-sensitively -/
+def classifyOld (host : String) : San :=
   match parseAddr host.toList with
   | some b => .ip b
   | none => if hasPrefix host uriPrefix then .uri host else .dns host
